@@ -633,7 +633,55 @@ class ExprMixin:
             itv = self.eval(node.generators[0].iter, st)
             if isinstance(itv, tuple) and itv and itv[0] == "#range" and len(itv) == 2:
                 return self.symbolic_listcomp(node, itv[1], st, want)
+        if len(node.generators) == 1 and node.generators[0].ifs and want is not None and want.kind in ("arr", "seq"):
+            itv = self.eval(node.generators[0].iter, st)
+            if isinstance(itv, SV) and itv.pt.kind in ("arr", "seq"):
+                return self.filtered_listcomp(node, itv, st, want)
         return self._comp(node, st)
+
+    def filtered_listcomp(self, node, src, st, want):
+        """[elt(x) for x in xs if cond(x)] over a symbolic list: the result is the unique list `out` for which there is a strictly
+        increasing map f from its positions onto the positions of xs that satisfy cond, with out[j] = elt(xs[f(j)])."""
+        ops = self.ops
+        gen = node.generators[0]
+        if src.pt.kind == "arr":
+            n, at = ops.arr_len(src), (lambda i: SV(smt.Select(ops.arr_data(src), i), src.pt.args[0]))
+        else:
+            n, at = smt.SeqLen(src.term), (lambda i: SV(smt.SeqNth(src.term, i), src.pt.args[0]))
+        out = self.fresh("filtered", want, st)
+        if want.kind == "arr":
+            m, oat = ops.arr_len(out), (lambda j: smt.Select(ops.arr_data(out), j))
+        else:
+            m, oat = smt.SeqLen(out.term), (lambda j: smt.SeqNth(out.term, j))
+        tag = smt.fresh_name("flt")
+        f, finv = f"pos_{tag}", f"inv_{tag}"
+        self.ctx.declare_fun(f, ["Int"], "Int")
+        self.ctx.declare_fun(finv, ["Int"], "Int")
+
+        def at_index(ix):
+            sub = st.fork()
+            self.assign_target(gen.target, at(ix), sub)
+            saved = self.spec_mode
+            self.spec_mode = True
+            try:
+                cond = smt.And(*[ops.truthy(self.eval(c, sub)) for c in gen.ifs])
+                elt = self.eval(node.elt, sub, want.args[0])
+            finally:
+                self.spec_mode = saved
+            return cond, ops.term(elt, want.args[0])
+
+        j, j2, i = smt.Var(smt.fresh_name("j"), "Int"), smt.Var(smt.fresh_name("j"), "Int"), smt.Var(smt.fresh_name("i"), "Int")
+        fj, fj2, gi = self.ctx.app(f, j), self.ctx.app(f, j2), self.ctx.app(finv, i)
+        cond_f, elt_f = at_index(fj)
+        cond_i, _ = at_index(i)
+        zero = smt.Int(0)
+        st.assume(smt.And(smt.Le(zero, m), smt.Le(m, n)))
+        st.assume(smt.Forall([(j.args[0], "Int")], smt.Implies(smt.And(smt.Le(zero, j), smt.Lt(j, m)),
+                  smt.And(smt.Le(zero, fj), smt.Lt(fj, n), cond_f, smt.Eq(oat(j), elt_f), smt.Eq(self.ctx.app(finv, fj), j))), patterns=((fj,), (oat(j),))))
+        st.assume(smt.Forall([(j.args[0], "Int"), (j2.args[0], "Int")], smt.Implies(smt.And(smt.Le(zero, j), smt.Lt(j, j2), smt.Lt(j2, m)), smt.Lt(fj, fj2)), patterns=((fj, fj2),)))
+        st.assume(smt.Forall([(i.args[0], "Int")], smt.Implies(smt.And(smt.Le(zero, i), smt.Lt(i, n), cond_i),
+                  smt.And(smt.Le(zero, gi), smt.Lt(gi, m), smt.Eq(self.ctx.app(f, gi), i))), patterns=((gi,), (at(i).term,))))
+        return out
 
     def symbolic_listcomp(self, node, count, st, want):
         """[elt for v in range(n)] with symbolic n: a fresh list r with len(r) = max(n,0), r[i] = elt(i)."""
